@@ -284,6 +284,10 @@ def _hint(d, ctx):
         return list[hint(d[1], ctx)]
     if k == "pep585dict":
         return dict[hint(d[1], ctx), hint(d[2], ctx)]
+    if k == "barelist":
+        return list            # the builtin without parameters: elements are passed through like Any
+    if k == "baredict":
+        return dict
     if k == "pep585tuple":
         return tuple[tuple(hint(x, ctx) for x in d[1:])]
     if k == "tuple":
@@ -658,7 +662,7 @@ def values(d, ctx: Ctx, top=True):
     if k == "leaf":
         vs = LEAVES[d[1]][1]
         return list(vs) if top else pick(vs, 4)
-    if k in ("list", "seq", "mutseq", "pep585list", "collection"):
+    if k in ("list", "seq", "mutseq", "pep585list", "barelist", "collection"):
         vs = inner(d[1])
         return _dedupe([[], [vs[0]], list(vs), list(reversed(vs))])
     if k == "tuplevar":
@@ -688,12 +692,12 @@ def values(d, ctx: Ctx, top=True):
             for c in combos:
                 out.append(tuple(c[:len(pre)]) + tuple(mvals) + tuple(c[len(pre):]))
         return _dedupe(out)
-    if k in ("dict", "mapping", "mutmapping", "pep585dict", "ordered", "defaultdict", "mproxy", "chain"):
+    if k in ("dict", "mapping", "mutmapping", "pep585dict", "baredict", "ordered", "defaultdict", "mproxy", "chain"):
         ks, vs = inner(d[1]), inner(d[2])
         ks = _hashable_distinct(ks)
         one = {ks[0]: vs[0]}
         many = {kk: vs[i % len(vs)] for i, kk in enumerate(reversed(ks))}
-        if k in ("dict", "mapping", "mutmapping", "pep585dict"):
+        if k in ("dict", "mapping", "mutmapping", "pep585dict", "baredict"):
             return _dedupe([{}, one, many])
         if k == "ordered":
             return _dedupe([collections.OrderedDict(), collections.OrderedDict(many)])
@@ -881,9 +885,9 @@ def show(d):
 # ---------------------------------------------------------------------------------------
 # enumeration (DESIGN.md 3.2)
 # ---------------------------------------------------------------------------------------
-WIRE_LISTY = set(SEQ1) | set(SET1) | {"tuple", "tupleu", "chain", "pep585list", "pep585tuple", "ntf", "nt"}
+WIRE_LISTY = set(SEQ1) | set(SET1) | {"tuple", "tupleu", "chain", "pep585list", "barelist", "pep585tuple", "ntf", "nt"}
 WIRE_DICTY = {"dict", "mapping", "mutmapping", "ordered", "defaultdict", "mproxy", "counter", "td", "dc", "dcgen",
-              "dcgeninh", "dcinh", "dcself", "dcselft", "dcfwd", "dcmut", "pep585dict"}
+              "dcgeninh", "dcinh", "dcself", "dcselft", "dcfwd", "dcmut", "pep585dict", "baredict"}
 
 
 def wire_kinds(d):
@@ -1011,10 +1015,17 @@ def nullability_cross():
     return out
 
 
+BARE = [("barelist", leaf("any")), ("baredict", leaf("str"), leaf("any"))]      # the builtins `list` and `dict` without parameters
+
+
 def schemas(tier, leaves=None):
     """All descriptors of the tier, simplest first (DESIGN.md 3.2 table)."""
     leaves = list(leaves or ALL_LEAVES)
     out = [leaf(n) for n in leaves]
+    out += BARE
+    for b in BARE:
+        out += [("union", INT, b), ("opt", b), ("list", b), ("dc", "mixin", ((b, "req"),)), ("newtype", b), ("annotated", b),
+                ("dict", STR, ("union", STR, b))]
     d1 = []
     for n in leaves:
         d1 += wrappers(leaf(n), "full")
